@@ -13,12 +13,15 @@ import (
 // ever sees the AST values.
 // ---------------------------------------------------------------------------------------------
 
-// syntax switches; the forms that are defective on the unchanged tree are off in the random
-// generator and on in the witnesses of findings/C18 (see notes/C18.md).
+// syntax switches.  All three forms were defective on the snapshot tree (findings/C18/number-*.json,
+// repaired since) and are on in the random generator.
 type numSyntax struct {
-	UpperE  bool // exponent written with 'E'
-	PlusExp bool // exponent with an explicit '+' sign
+	UpperE      bool // exponent written with 'E'
+	PlusExp     bool // exponent with an explicit '+' sign
+	DotAfterExp bool // a '.'-started number glued to a number that ends with an exponent: 1e1.5
 }
+
+var fullSyntax = numSyntax{UpperE: true, PlusExp: true, DotAfterExp: true}
 
 // fmtNumber renders v (a multiple of 1/8 of moderate size) in a random valid spelling.
 // The returned flags tell the separator logic what may follow without a separator.
@@ -124,6 +127,12 @@ func (w *numWriter) sep(nextText string) {
 		canOmit = true
 	case nextText[0] == '.' && w.prevDot && !w.prevExp:
 		canOmit = true // 1.5.5
+	case nextText[0] == '.' && w.prevExp && w.syn.DotAfterExp:
+		canOmit = true // 1e1.5 : the exponent is an integer, the '.' starts a new number
+		if w.r.Intn(2) == 0 {
+			w.count("dot_after_exp")
+			return
+		}
 	}
 	if canOmit && w.r.Intn(2) == 0 {
 		w.count("sep_omitted")
